@@ -10,6 +10,7 @@ import (
 	policyv1 "k8s.io/api/policy/v1"
 	storagev1 "k8s.io/api/storage/v1"
 	metav1 "k8s.io/apimachinery/pkg/apis/meta/v1"
+	"k8s.io/apimachinery/pkg/types"
 	"k8s.io/apimachinery/pkg/util/intstr"
 	"sigs.k8s.io/controller-runtime/pkg/client"
 
@@ -62,6 +63,9 @@ type termScenario struct {
 	slowDetach bool // the attach-detach controller is slow: detaching is not part of the default history
 	slowPods   bool // pods use their whole grace period: a deleted pod disappears no earlier than its deletionTimestamp
 	first      string // "nodeclaim" | "node": which object the user / disruption deletes first
+	// replaced: this pod may be re-created by its owner under the SAME name (new UID) on another node while the drain is
+	// under way (a StatefulSet pod); the new pod has an active do-not-disrupt annotation and is none of the drain's business
+	replaced string
 }
 
 func i64(v int64) *int64              { return &v }
@@ -206,10 +210,10 @@ func (t *termRun) actions() []action {
 		}
 		n := n
 		out = append(out, action{"eviction-queue:" + n, func() {
-			if p := t.livePod(n); p != nil {
+			if p := t.livePod(n); p != nil && p.UID == orig.UID {
 				_, _ = t.queue.Reconcile(w.Ctx, p)
 			} else {
-				_, _ = t.queue.Reconcile(w.Ctx, orig) // the controller reconciles the enqueued key; object gone => stale copy
+				_, _ = t.queue.Reconcile(w.Ctx, orig) // the controller reconciles the enqueued key; object gone or replaced => the stale copy of a lagging cache
 			}
 		}})
 	}
@@ -321,6 +325,21 @@ func (t *termRun) extraEvents() []action {
 			}
 		}})
 	}
+	if n := t.sc.replaced; n != "" {
+		if p := t.livePod(n); p != nil && p.UID == t.pods[n].UID {
+			out = append(out, action{"pod-replaced-under-same-name:" + n, func() {
+				w.EnvDelete(p)
+				np := world.Pod(n, 100, world.Bound("n2"))
+				np.UID = types.UID("pod-" + n + "-second")
+				np.Labels = map[string]string{"app": n}
+				np.Annotations = map[string]string{v1.DoNotDisruptAnnotationKey: "true"}
+				world.OwnedBy("StatefulSet", "sts")(np)
+				st := metaT(w.Clock.Now())
+				np.Status.StartTime = &st
+				w.Add(np)
+			}})
+		}
+	}
 	out = append(out, action{"controller-restart", func() { t.newControllers() }})
 	if t.sc.slowDetach {
 		vas := &storagev1.VolumeAttachmentList{}
@@ -353,6 +372,9 @@ func (t *termRun) interleaveNames() []string {
 		out = append(out, "volume-detached:"+vas.Items[i].Name)
 	}
 	out = append(out, "instance-terminated", "instance-vanishes", "node-not-ready", "user-deletes-node")
+	if t.sc.replaced != "" {
+		out = append(out, "pod-replaced-under-same-name:"+t.sc.replaced)
+	}
 	pdbs := &policyv1.PodDisruptionBudgetList{}
 	_ = t.w.Raw.List(t.w.Ctx, pdbs)
 	if len(pdbs.Items) > 0 {
